@@ -234,9 +234,9 @@ def build(spec: NetSpec, names=None, order=None, override=None, netname="net", t
     obj = make_elements(spec, names, override)
     if subclass:
         # every element becomes an instance of a trivial user-defined subclass of its library class
-        from .graphmodel import as_probe_subclass, as_user_subclass
+        from .graphmodel import as_probe_subclass, as_reordering_subclass, as_user_subclass
         for o in obj.values():
-            (as_probe_subclass if subclass == "probe" else as_user_subclass)(o)
+            {"probe": as_probe_subclass, "reorder": as_reordering_subclass}.get(subclass, as_user_subclass)(o)
     net = M.Network(name=netname)
     for call in (order or default_order(spec)):
         k = call[0]
